@@ -98,6 +98,19 @@ func mintConfigs(thorough bool) []mintCfg {
 			}
 		}
 	}
+	// period ids need not start at 1 (validation asks only for consecutive ids above 0): the
+	// reduced two- and three-period families again with ids from 2 and from 5
+	for _, first := range []int{2, 5} {
+		for _, r := range red {
+			for _, l := range redLast {
+				out = append(out, mintCfg{FirstID: first, Periods: []mp{withEnd(r, 15*time.Second), l}})
+				if first == 2 {
+					out = append(out, mintCfg{FirstID: first, Periods: []mp{withEnd(r, 15*time.Second), withEnd(red[1], 30*time.Second), l}})
+				}
+			}
+		}
+		out = append(out, mintCfg{FirstID: first, Periods: []mp{redLast[1]}})
+	}
 	return out
 }
 
@@ -119,7 +132,7 @@ func exploreCadences(w *harness.World, cfg mintCfg, grid []time.Duration, st *c0
 		atomic.AddInt64(&st.rejectedCfg, 1)
 		return
 	}
-	k.SetMinterState(root, freshMinterState(harness.T0))
+	k.SetMinterState(root, cfg.freshState(harness.T0))
 	cumAt := make([]*big.Int, len(grid))
 	// expected per instant
 	lo := make([]*big.Int, len(grid))
@@ -169,10 +182,10 @@ func exploreCadences(w *harness.World, cfg mintCfg, grid []time.Duration, st *c0
 			if harness.T0.Add(grid[j]).Before(sched.Start) {
 				curIdx = 0
 			}
-			if int(ms.SequenceId) != curIdx+1 {
-				report("sequence-id", fmt.Sprintf("at +%s the current period is %d, schedule says %d", grid[j], ms.SequenceId, curIdx+1), cad)
+			if int(ms.SequenceId) != curIdx+cfg.first() {
+				report("sequence-id", fmt.Sprintf("at +%s the current period is %d, schedule says %d", grid[j], ms.SequenceId, curIdx+cfg.first()), cad)
 			}
-			if int(ms.SequenceId) > 1 {
+			if int(ms.SequenceId) > cfg.first() {
 				atomic.AddInt64(&st.boundaryCross, 1)
 			}
 			if !ms.RemainderFromPreviousMinter.IsZero() {
@@ -180,7 +193,7 @@ func exploreCadences(w *harness.World, cfg mintCfg, grid []time.Duration, st *c0
 			}
 			for pi := 0; pi < curIdx; pi++ {
 				if cfg.Periods[pi].Kind == ref.Linear {
-					h, found := k.GetMinterStateHistory(c, uint32(pi+1))
+					h, found := k.GetMinterStateHistory(c, uint32(pi+cfg.first()))
 					if !found || !h.AmountMinted.Equal(mustInt(cfg.Periods[pi].Amount)) {
 						report("linear-total", fmt.Sprintf("finished linear period %d minted %v, configured %s", pi+1, h.AmountMinted, cfg.Periods[pi].Amount), cad)
 					}
